@@ -38,6 +38,11 @@ Import ListNotations.
 Local Open Scope string_scope.
 Local Open Scope list_scope.
 
+(* Extraction only: Coq's String module would become String.ml and shadow OCaml's Stdlib.String in the driver;
+   the blacklist makes the extracted file String0.ml.  It renames a file, nothing else. *)
+Require Extraction.
+Extraction Blacklist String.
+
 (* ------------------------------------------------------------------ TypeKind, BaseTypedefs *)
 
 Inductive kind :=
@@ -295,11 +300,13 @@ Fixpoint whole_loop (S : schema) (fuel : nat) (done queue : list nat) : list nat
       end
   end.
 
-Definition total_includes (S : schema) : nat :=
-  fold_right (fun M n => length (m_includes M) + n) 0 S.
+(* the include statements (resolved) of the modules not yet in [done]; each turn of the loop either drops a queue
+   element or moves a module into [done], so  length queue + pending_includes done  decreases *)
+Definition pending_includes (S : schema) (done : list nat) : nat :=
+  list_sum (map (fun m => if nat_mem m done then 0 else length (includes S m)) (seq 0 (length S))).
 
-(* enough for the loop to run to completion: TypesProofs.whole_fuel_enough *)
-Definition whole_fuel (S : schema) : nat := 3 + total_includes S.
+(* enough for the loop to run to completion: TypesProofs.whole_loop_complete *)
+Definition whole_fuel (S : schema) : nat := 3 + pending_includes S [].
 
 Definition wholeModule (S : schema) (root : nat) : list nat :=
   whole_loop S (whole_fuel S) [] (root :: owner S root).
